@@ -507,14 +507,20 @@ theorem intersperseRun_length {α} (ss : List (Stream α)) (order : List OrdEntr
 /-- **prefix property**: along a consistent table, started fresh, the value yielded at table position
     `t` (entry `e`) is value number `e.j` of stream number `e.d`, whatever the streams are
     (shorter than announced, ending with an error, …) -/
-theorem intersperseRun_prefix {α} (ss : List (Stream α)) (order : List OrdEntry) (hok : OrderOK order)
-    (t : Nat) (v : α) (h : (intersperseRun ss order (ss.map fun _ => 0)).vals[t]? = some v) :
+theorem intersperseRun_prefix_of_zeros {α} (ss : List (Stream α)) (order : List OrdEntry) (hok : OrderOK order)
+    (pos : List Nat) (hz : ∀ (i p : Nat), pos[i]? = some p → p = 0)
+    (t : Nat) (v : α) (h : (intersperseRun ss order pos).vals[t]? = some v) :
     ∃ e s, order[t]? = some e ∧ ss[e.d]? = some s ∧ s.vals[e.j]? = some v := by
-  obtain ⟨e, s, p, h1, h2, h3, h4⟩ := (isp_run_spec ss order (ss.map fun _ => 0)).2.2.1 t v h
-  have hp := isp_zeros_getElem? ss _ _ h3
+  obtain ⟨e, s, p, h1, h2, h3, h4⟩ := (isp_run_spec ss order pos).2.2.1 t v h
+  have hp := hz _ _ h3
   subst hp
   rw [hok t e h1, Nat.zero_add] at h4
   exact ⟨e, s, h1, h2, h4⟩
+
+theorem intersperseRun_prefix {α} (ss : List (Stream α)) (order : List OrdEntry) (hok : OrderOK order)
+    (t : Nat) (v : α) (h : (intersperseRun ss order (ss.map fun _ => 0)).vals[t]? = some v) :
+    ∃ e s, order[t]? = some e ∧ ss[e.d]? = some s ∧ s.vals[e.j]? = some v :=
+  intersperseRun_prefix_of_zeros ss order hok _ (isp_zeros_getElem? ss) t v h
 
 /-- the same with `getElem` -/
 theorem intersperseRun_prefix' {α} (ss : List (Stream α)) (order : List OrdEntry) (hok : OrderOK order)
@@ -864,6 +870,17 @@ theorem rel_intersperse {ds : List DS} {rs : List RefDS} {order : List OrdEntry}
     simp only [Ref.intersperse]
     rw [outAt_lt _ j (by simpa using hjo)]
     simp only [List.getElem_map, hr]
+
+/-- naming convention of this development for "the statement as first written is false
+    (`rel_intersperse_counterexample`), this is the strongest true variant" -/
+theorem rel_intersperse_partial {ds : List DS} {rs : List RefDS} {order : List OrdEntry}
+    (h : Forall₂ Rel ds rs)
+    (hord : ∀ e ∈ order, e.d < rs.length ∧
+      (∀ r, rs[e.d]? = some r → r.indexable = true → e.j < r.outs.length))
+    (hcov : ∀ i r, rs[i]? = some r → r.indexable = true → ∀ j, j < r.outs.length →
+      ∃ e ∈ order, e.d = i ∧ e.j = j) :
+    Rel (intersperseDS ds order) (Ref.intersperse rs order) :=
+  rel_intersperse h hord hcov
 
 /-! ### `IntersperseDataset.__init__` -/
 
@@ -1234,5 +1251,363 @@ theorem rel_mkKeyZip {ds : List DS} {rs : List RefDS} {d : DS} (h : Forall₂ Re
         rw [hs] at hm
         cases hm
         exact ⟨_, rfl, rel_keyZip h (by omega) hi ⟨kss, hkss, hs⟩⟩
+
+/-! ## Part 3: well-formedness of the references (C02 / C03 on the eager data) -/
+
+/-! ### generic facts about `Stream.ofOuts` -/
+
+theorem isp_ofOuts_spec {α} : ∀ (l : List (Res α)),
+    (Stream.ofOuts l).vals.length ≤ l.length ∧
+    (∀ (t : Nat) (v : α), (Stream.ofOuts l).vals[t]? = some v → l[t]? = some (.ok v)) ∧
+    ((Stream.ofOuts l).err = none → (Stream.ofOuts l).vals.length = l.length)
+  | [] => by simp [Stream.ofOuts]
+  | .error e :: rest => by simp [Stream.ofOuts]
+  | .ok a :: rest => by
+    obtain ⟨h1, h2, h3⟩ := isp_ofOuts_spec rest
+    simp only [Stream.ofOuts, List.length_cons]
+    refine ⟨by omega, ?_, fun h => by rw [h3 h]⟩
+    intro t v hv
+    cases t with
+    | zero =>
+      simp only [List.getElem?_cons_zero, Option.some.injEq] at hv ⊢
+      rw [hv]
+    | succ t =>
+      simp only [List.getElem?_cons_succ] at hv ⊢
+      exact h2 t v hv
+
+/-- the t-th value yielded by `ofOuts l` is the t-th outcome of `l` -/
+theorem isp_ofOuts_pos {α} (l : List (Res α)) (t : Nat) (h : t < (Stream.ofOuts l).vals.length) :
+    l[t]? = some (.ok (Stream.ofOuts l).vals[t]) :=
+  (isp_ofOuts_spec l).2.1 t _ (List.getElem?_eq_getElem h)
+
+/-- C02 (`RefWF.pos`) for every reference whose iteration is "evaluate the positions in turn" -/
+theorem isp_wf_of_ofOuts (r : RefDS) (h : r.stream = .ofOuts r.outs) :
+    r.stream.vals.length ≤ r.outs.length ∧
+    (∀ (t : Nat) (h : t < r.stream.vals.length), r.outs[t]? = some (.ok r.stream.vals[t])) ∧
+    (r.stream.err = none → r.stream.vals.length = r.outs.length) := by
+  obtain ⟨ix, outs, stream, kstream, keys, len⟩ := r
+  simp only at h
+  subst h
+  exact ⟨(isp_ofOuts_spec outs).1, fun t ht => isp_ofOuts_pos outs t ht, (isp_ofOuts_spec outs).2.2⟩
+
+/-- evaluating `k ↦ (k, g k)` along a key list: same end, same values, keys in list order -/
+theorem isp_ofOuts_keyed {α} (g : String → Res α) : ∀ (l : List String),
+    (Stream.ofOuts (l.map (fun k => g k >>= fun v => (Except.ok (k, v) : Res (String × α))))).err
+      = (Stream.ofOuts (l.map g)).err ∧
+    (Stream.ofOuts (l.map (fun k => g k >>= fun v => (Except.ok (k, v) : Res (String × α))))).vals.map (·.2)
+      = (Stream.ofOuts (l.map g)).vals ∧
+    (Stream.ofOuts (l.map (fun k => g k >>= fun v => (Except.ok (k, v) : Res (String × α))))).vals.map (·.1)
+      = l.take (Stream.ofOuts (l.map (fun k => g k >>= fun v => (Except.ok (k, v) : Res (String × α))))).vals.length
+  | [] => by simp [Stream.ofOuts]
+  | k :: l => by
+    obtain ⟨h1, h2, h3⟩ := isp_ofOuts_keyed g l
+    cases hg : g k with
+    | error e => simp [Stream.ofOuts, hg, error_bind]
+    | ok v =>
+      simp only [List.map_cons, hg, ok_bind, Stream.ofOuts, List.length_cons, List.take_succ_cons]
+      exact ⟨h1, by rw [h2], by rw [← h3]⟩
+
+/-! ### generic facts about `intersperseRun` -/
+
+/-- the interleaving commutes with mapping the yielded values -/
+theorem isp_run_map {α β} (f : α → β) (ks : List (Stream α)) : ∀ (order : List OrdEntry) (pos : List Nat),
+    intersperseRun (ks.map (fun k => (⟨k.vals.map f, k.err⟩ : Stream β))) order pos
+      = ⟨(intersperseRun ks order pos).vals.map f, (intersperseRun ks order pos).err⟩
+  | [], pos => by simp [intersperseRun, Stream.nil]
+  | e :: rest, pos => by
+    simp only [intersperseRun, List.getElem?_map]
+    cases hk : ks[e.d]? with
+    | none => simp [Stream.fail]
+    | some k =>
+      cases hp : pos[e.d]? with
+      | none => simp [Stream.fail]
+      | some p =>
+        simp only [Option.map_some, List.getElem?_map]
+        cases hv : k.vals[p]? with
+        | none =>
+          cases he : k.err <;> simp [Stream.fail]
+        | some v =>
+          simp only [Option.map_some, Stream.cons, isp_run_map f ks rest]
+          simp
+
+/-- if every stream of `ks`, mapped by `f`, is a prefix of the corresponding stream of `ss`
+    (complete when it ends normally), the same holds for the interleavings -/
+theorem isp_run_sim {α β} (f : α → β) (ks : List (Stream α)) (ss : List (Stream β))
+    (hlen : ks.length = ss.length)
+    (h : ∀ (i : Nat) (k : Stream α) (s : Stream β), ks[i]? = some k → ss[i]? = some s →
+      k.vals.map f <+: s.vals ∧ (k.err = none → k.vals.map f = s.vals ∧ s.err = none)) :
+    ∀ (order : List OrdEntry) (pos : List Nat),
+      (intersperseRun ks order pos).vals.map f <+: (intersperseRun ss order pos).vals ∧
+      ((intersperseRun ks order pos).err = none →
+        (intersperseRun ks order pos).vals.map f = (intersperseRun ss order pos).vals ∧
+        (intersperseRun ss order pos).err = none)
+  | [], pos => by simp [intersperseRun, Stream.nil]
+  | e :: rest, pos => by
+    have hfail : ∀ er, intersperseRun ks (e :: rest) pos = .fail er →
+        (intersperseRun ks (e :: rest) pos).vals.map f <+: (intersperseRun ss (e :: rest) pos).vals ∧
+        ((intersperseRun ks (e :: rest) pos).err = none →
+          (intersperseRun ks (e :: rest) pos).vals.map f = (intersperseRun ss (e :: rest) pos).vals ∧
+          (intersperseRun ss (e :: rest) pos).err = none) := by
+      intro er hr
+      rw [hr]
+      simp [Stream.fail]
+    cases hk : ks[e.d]? with
+    | none =>
+      apply hfail .indexError
+      simp only [intersperseRun, hk]
+    | some k =>
+      have hd : e.d < ss.length := hlen ▸ (List.getElem?_eq_some_iff.1 hk).1
+      have hs : ss[e.d]? = some ss[e.d] := List.getElem?_eq_getElem hd
+      cases hp : pos[e.d]? with
+      | none =>
+        apply hfail .indexError
+        simp only [intersperseRun, hk, hp]
+      | some p =>
+        cases hv : k.vals[p]? with
+        | none =>
+          cases he : k.err with
+          | none =>
+            apply hfail .runtimeError
+            simp only [intersperseRun, hk, hp, hv, he]
+          | some er =>
+            apply hfail er
+            simp only [intersperseRun, hk, hp, hv, he]
+        | some v =>
+          obtain ⟨⟨tl, htl⟩, _⟩ := h e.d k ss[e.d] hk hs
+          have hv' : ss[e.d].vals[p]? = some (f v) := by
+            have hp' : p < k.vals.length := (List.getElem?_eq_some_iff.1 hv).1
+            rw [← htl, List.getElem?_append_left (by simpa using hp'), List.getElem?_map, hv]
+            rfl
+          obtain ⟨ih1, ih2⟩ := isp_run_sim f ks ss hlen h rest (pos.set e.d (p + 1))
+          simp only [intersperseRun, hk, hs, hp, hv, hv', Stream.cons, List.map_cons,
+            List.cons_prefix_cons, true_and, List.cons.injEq]
+          exact ⟨ih1, ih2⟩
+
+theorem isp_zeros_map {α β} (l : List α) (f : α → β) :
+    (l.map f).map (fun _ => 0) = l.map (fun _ => 0) := by
+  simp [List.map_map, Function.comp_def]
+
+theorem isp_outAt_of_getElem? (l : List (Res Val)) (j : Nat) (o : Res Val) (h : l[j]? = some o) :
+    outAt l (j : Int) = o := by
+  obtain ⟨hj, rfl⟩ := List.getElem?_eq_some_iff.1 h
+  exact outAt_lt l j hj
+
+/-! ### `Ref.intersperse` -/
+
+/-- C02/C03 for the interspersed reference along any consistent table.  Nothing is assumed about the
+    parts beyond their own well-formedness: not that they are indexable, not that the table was built
+    from their lengths (values past the end of a part simply end the iteration with an error). -/
+theorem wf2_intersperse_of_ok {rs : List RefDS} {order : List OrdEntry}
+    (hwf : ∀ r ∈ rs, RefWF2 r) (hok : OrderOK order) : RefWF2 (Ref.intersperse rs order) := by
+  have hz := isp_zeros_getElem? rs
+  have houts : (Ref.intersperse rs order).outs.length = order.length := by simp [Ref.intersperse]
+  have hlenS : (Ref.intersperse rs order).stream.vals.length ≤ order.length ∧
+      ((Ref.intersperse rs order).stream.err = none ↔
+        (Ref.intersperse rs order).stream.vals.length = order.length) :=
+    intersperseRun_length (rs.map (fun r : RefDS => r.stream)) order (rs.map fun _ => 0)
+  refine { pos := ?_, len := ?_, pairs := ?_, keyed := ?_, lenOuts := ?_, keysLen := ?_ }
+  · intro hix
+    have hi := isp_all_indexable_mem hix
+    refine ⟨by rw [houts]; exact hlenS.1, ?_, fun h => by rw [houts]; exact hlenS.2.1 h⟩
+    intro t ht
+    have hv : (intersperseRun (rs.map (·.stream)) order (rs.map fun _ => 0)).vals[t]?
+        = some (Ref.intersperse rs order).stream.vals[t] := List.getElem?_eq_getElem ht
+    obtain ⟨e, s, h1, h2, h3⟩ := intersperseRun_prefix_of_zeros _ order hok _ hz t _ hv
+    simp only [List.getElem?_map, Option.map_eq_some_iff] at h2
+    obtain ⟨r, hr, rfl⟩ := h2
+    have hrmem : r ∈ rs := List.mem_of_getElem? hr
+    obtain ⟨_, hpos, _⟩ := (hwf r hrmem).pos (hi r hrmem)
+    obtain ⟨hj, h3'⟩ := List.getElem?_eq_some_iff.1 h3
+    have := hpos order[t].j (by
+      obtain ⟨_, he⟩ := List.getElem?_eq_some_iff.1 h1
+      rw [he]; exact hj)
+    obtain ⟨ho, he⟩ := List.getElem?_eq_some_iff.1 h1
+    subst he
+    simp only [Ref.intersperse, List.getElem?_map, List.getElem?_eq_getElem ho, Option.map_some, hr]
+    rw [isp_outAt_of_getElem? _ _ _ this, h3']
+    rfl
+  · intro n hn herr
+    simp only [Ref.intersperse] at hn
+    injection hn with hn
+    rw [← hn]
+    exact hlenS.2.1 herr
+  · have hsim := isp_run_sim (fun kv : String × Val => kv.2) (rs.map (·.kstream)) (rs.map (·.stream))
+      (by simp) (by
+        intro i k s hk hs
+        simp only [List.getElem?_map, Option.map_eq_some_iff] at hk hs
+        obtain ⟨r, hr, rfl⟩ := hk
+        obtain ⟨r', hr', rfl⟩ := hs
+        rw [hr] at hr'
+        injection hr' with hr'
+        subst hr'
+        exact (hwf r (List.mem_of_getElem? hr)).pairs) order (rs.map fun _ => 0)
+    exact hsim
+  · intro ks hks hix
+    have hi := isp_all_indexable_mem hix
+    obtain ⟨kss, hm, ho, _⟩ := isp_ref_keys_ok hks
+    obtain ⟨_, hkget⟩ := isp_mapM_ok_getElem? _ rs kss hm
+    obtain ⟨_, hoget⟩ := isp_mapM_ok_getElem? _ order ks ho
+    -- every part's iteration is its keyed iteration with the keys dropped
+    have hmap : rs.map (·.stream)
+        = (rs.map (·.kstream)).map (fun k => (⟨k.vals.map (·.2), k.err⟩ : Stream Val)) := by
+      rw [List.map_map]
+      apply List.map_congr_left
+      intro r hr
+      obtain ⟨t, ht, hrt⟩ := List.getElem_of_mem hr
+      obtain ⟨kl, _, hrk⟩ := hkget t r (by rw [← hrt]; exact List.getElem?_eq_getElem ht)
+      obtain ⟨h1, h2, _⟩ := (hwf r hr).keyed kl hrk (hi r hr)
+      simp only [Function.comp]
+      rw [h1, h2]
+    have hrun := isp_run_map (fun kv : String × Val => kv.2) (rs.map (·.kstream)) order (rs.map fun _ => 0)
+    rw [← hmap] at hrun
+    have hS' : (Ref.intersperse rs order).stream
+        = intersperseRun (rs.map (·.stream)) order (rs.map fun _ => 0) := rfl
+    have hK' : (Ref.intersperse rs order).kstream
+        = intersperseRun (rs.map (·.kstream)) order (rs.map fun _ => 0) := rfl
+    rw [← hS', ← hK'] at hrun
+    refine ⟨by rw [hrun], by rw [hrun], ?_⟩
+    apply List.ext_getElem?
+    intro t
+    rw [List.getElem?_map, List.getElem?_take]
+    by_cases ht : t < (Ref.intersperse rs order).kstream.vals.length
+    · rw [if_pos ht]
+      have hv : (intersperseRun (rs.map (·.kstream)) order (rs.map fun _ => 0)).vals[t]?
+          = some (Ref.intersperse rs order).kstream.vals[t] := List.getElem?_eq_getElem ht
+      rw [List.getElem?_eq_getElem ht]
+      obtain ⟨e, s, h1, h2, h3⟩ := intersperseRun_prefix_of_zeros _ order hok _ hz t _ hv
+      simp only [List.getElem?_map, Option.map_eq_some_iff] at h2
+      obtain ⟨r, hr, rfl⟩ := h2
+      have hrmem : r ∈ rs := List.mem_of_getElem? hr
+      obtain ⟨kl, hkl, hrk⟩ := hkget e.d r hr
+      obtain ⟨_, _, hfst⟩ := (hwf r hrmem).keyed kl hrk (hi r hrmem)
+      obtain ⟨b, hb, hbe⟩ := hoget t e h1
+      obtain ⟨kl', hkl', hkb⟩ := (isp_keyAt_ok_iff kss e b).1 hbe
+      rw [hkl] at hkl'
+      injection hkl' with hkl'
+      subst hkl'
+      -- the key paired with value `e.j` of the part is `kl[e.j]`
+      have : (r.kstream.vals.map (·.1))[e.j]? = (kl.take r.kstream.vals.length)[e.j]? := by rw [hfst]
+      rw [List.getElem?_map, h3, List.getElem?_take,
+        if_pos (List.getElem?_eq_some_iff.1 h3).1, hkb] at this
+      rw [hb, Option.map_some]
+      exact this
+    · rw [if_neg ht]
+      have : (Ref.intersperse rs order).kstream.vals[t]? = none := by
+        rw [List.getElem?_eq_none_iff]; omega
+      rw [this]; rfl
+  · intro _
+    simp [Ref.intersperse]
+  · intro _ ks hk
+    obtain ⟨kss, _, ho, _⟩ := isp_ref_keys_ok hk
+    rw [houts]
+    exact (mapM_ok _ order ks ho).1
+
+/-- C02/C03 for the reference of `IntersperseDataset`: the table built from ANY list of lengths is
+    consistent, so only the parts' well-formedness is needed -/
+theorem wf2_intersperse {rs : List RefDS} (hwf : ∀ r ∈ rs, RefWF2 r) (lens : List Nat) :
+    RefWF2 (Ref.intersperse rs (intersperseOrder lens)) :=
+  wf2_intersperse_of_ok hwf (order_ok lens)
+
+/-- the `RefWF` form asked for -/
+theorem wf_intersperse {rs : List RefDS} (hwf : ∀ r ∈ rs, RefWF2 r) (lens : List Nat) :
+    RefWF (Ref.intersperse rs (intersperseOrder lens)) :=
+  (wf2_intersperse hwf lens).toRefWF
+
+theorem wf2_mkIntersperse {rs : List RefDS} {r : RefDS} (hwf : ∀ r ∈ rs, RefWF2 r)
+    (hm : Ref.mkIntersperse rs = .ok r) : RefWF2 r := by
+  unfold Ref.mkIntersperse at hm
+  by_cases he : rs.isEmpty = true
+  · simp [he, bind, Except.bind, throw, throwThe, MonadExceptOf.throw] at hm
+  · simp only [he] at hm
+    cases hl : Ref.allLens rs with
+    | error e => rw [hl] at hm; cases hm
+    | ok lens =>
+      rw [hl] at hm
+      simp only [bind, Except.bind] at hm
+      cases hz : lens.any (· == 0) with
+      | true => rw [hz] at hm; cases hm
+      | false =>
+        rw [hz] at hm
+        cases hm
+        exact wf2_intersperse hwf lens
+
+/-! ### `Ref.keyZip` -/
+
+theorem wf2_keyZip_cons {r0 : RefDS} {rs' : List RefDS} (hwf0 : RefWF2 r0) (hi0 : r0.indexable = true)
+    (ks0 : List String) (hk0 : r0.keys = .ok ks0) : RefWF2 (Ref.keyZip (r0 :: rs')) := by
+  have ho := kz_outs r0 rs' ks0 hk0
+  have hs := kz_stream r0 rs' ks0 hk0
+  have hk := kz_kstream r0 rs' ks0 hk0
+  have hso : (Ref.keyZip (r0 :: rs')).stream = .ofOuts (Ref.keyZip (r0 :: rs')).outs := by rw [hs, ho]
+  have hlen0 : ks0.length = r0.outs.length := hwf0.keysLen hi0 ks0 hk0
+  have hol : (Ref.keyZip (r0 :: rs')).outs.length = r0.outs.length := by rw [ho, List.length_map, hlen0]
+  have hfun : kzRowK (r0 :: rs')
+      = fun k => kzRow (r0 :: rs') k >>= fun v => (Except.ok (k, v) : Res (String × Val)) := by
+    funext k; exact kzRowK_eq _ k
+  obtain ⟨e1, e2, e3⟩ := isp_ofOuts_keyed (kzRow (r0 :: rs')) ks0
+  rw [← hfun, ← hk] at e1 e2 e3
+  rw [← hs] at e1 e2
+  refine { pos := ?_, len := ?_, pairs := ?_, keyed := ?_, lenOuts := ?_, keysLen := ?_ }
+  · intro _
+    exact isp_wf_of_ofOuts _ hso
+  · intro n hn herr
+    have hn' : r0.len = .ok n := hn
+    rw [hwf0.lenOuts hi0] at hn'
+    injection hn' with hn'
+    rw [(isp_wf_of_ofOuts _ hso).2.2 herr, hol, hn']
+  · refine ⟨by rw [e2]; exact List.prefix_refl _, ?_⟩
+    intro herr
+    exact ⟨e2, by rw [← e1]; exact herr⟩
+  · intro ks hks _
+    have hks' : r0.keys = .ok ks := hks
+    rw [hk0] at hks'
+    injection hks' with hks'
+    subst hks'
+    exact ⟨e1, e2, e3⟩
+  · intro _
+    show r0.len = _
+    rw [hol]
+    exact hwf0.lenOuts hi0
+  · intro _ ks hks
+    have hks' : r0.keys = .ok ks := hks
+    rw [hk0] at hks'
+    injection hks' with hks'
+    subst hks'
+    rw [hol, hlen0]
+
+/-- C02/C03 for the reference of `KeyZipDataset`: a non-empty list of parts whose first part is
+    indexable, well-formed and has a key table (the other parts enter only through `Ref.lookup`) -/
+theorem wf2_keyZip {rs : List RefDS} (hwf : ∀ r ∈ rs, RefWF2 r) (hne : rs ≠ [])
+    (hi : ∀ r ∈ rs, r.indexable = true) (hk : ∃ kss, rs.mapM (·.keys) = .ok kss) :
+    RefWF2 (Ref.keyZip rs) := by
+  cases rs with
+  | nil => exact absurd rfl hne
+  | cons r0 rs' =>
+    obtain ⟨kss, hm⟩ := hk
+    obtain ⟨ks0, _, hk0, _, _⟩ := isp_mapM_cons_ok _ _ _ _ hm
+    exact wf2_keyZip_cons (hwf r0 (by simp)) (hi r0 (by simp)) ks0 hk0
+
+theorem wf_keyZip {rs : List RefDS} (hwf : ∀ r ∈ rs, RefWF2 r) (hne : rs ≠ [])
+    (hi : ∀ r ∈ rs, r.indexable = true) (hk : ∃ kss, rs.mapM (·.keys) = .ok kss) :
+    RefWF (Ref.keyZip rs) :=
+  (wf2_keyZip hwf hne hi hk).toRefWF
+
+theorem wf2_mkKeyZip {rs : List RefDS} {r : RefDS} (hwf : ∀ r ∈ rs, RefWF2 r)
+    (hi : ∀ r ∈ rs, r.indexable = true) (hm : Ref.mkKeyZip rs = .ok r) : RefWF2 r := by
+  unfold Ref.mkKeyZip at hm
+  by_cases hlt : rs.length < 2
+  · simp [hlt, bind, Except.bind, throw, throwThe, MonadExceptOf.throw] at hm
+  · simp only [hlt, if_false] at hm
+    cases hkss : rs.mapM (·.keys) with
+    | error e => rw [hkss] at hm; cases hm
+    | ok kss =>
+      rw [hkss] at hm
+      simp only [bind, Except.bind] at hm
+      cases hs : sameKeySets kss with
+      | false => rw [hs] at hm; cases hm
+      | true =>
+        rw [hs] at hm
+        cases hm
+        exact wf2_keyZip hwf (by intro h; rw [h] at hlt; simp at hlt) hi ⟨kss, hkss⟩
 
 end LazyDs
